@@ -94,6 +94,29 @@ claim("C06", "exploration",
       "TLA+ parser/lattice spec + TLC case enumeration; model-derived byte cases through the real entry points, router, replies and relays in child processes",
       "DESIGN.md 4/C06", "lattice")
 
+claim("C05", "exploration",
+      "specs/Packet/UdpLayout.tla models one datagram through one relay hop (Configure, OriginPack, Recv/Truncated, RelayUnpack, RelayPack, "
+      "PeerUnpack) with header lengths, headroom tables, MTU-derived sizes, the padding bound and both service buffer formulas as operators over "
+      "constants read from the compiled code; TLC checks InBuffer/WithinMtu/TooBigIsRefused/RelaySafe/RoundTrip/PaddingBounded over the case "
+      "lattice and prints the cases. Every case is replayed on the real packers/unpackers in canary-filled buffers sized by the relays that "
+      "service.Config.Manager really builds (read by reflection), incl. identity-header chains; a sample goes through real relay services on "
+      "loopback (v4/v6, with and without mmsg batching).",
+      "Padding amounts are the code's own random choice (bounds and shifts are checked, not exact values); cipher fidelity is observed on the "
+      "replayed samples, not modelled; live relays sample 1 configuration per protocol pair in quick.",
+      "TLA+ layout spec + TLC case enumeration; model-derived cases on the real codecs with canaries and through real relays",
+      "DESIGN.md 4/C05", "udplayout")
+claim("C10", "exploration",
+      "specs/Sets/{DomainSet,PortSet,PrefixSet}.tla transcribe the suffix trie (insert/purge/stop-at-leaf, match), the linear and map suffix "
+      "matchers, the matcher-selection table, the text parser and the text/gob conversions, the port bit set with the RangeSet scan and binary "
+      "search, and prefix-set text round trips, each next to its declarative meaning; TLC checks MatchIsMeaning, TrieCanonical (independent of "
+      "insertion order), ConversionsPreserve, BitsAreTheSet, RangesAreTheRuns ... exhaustively over small alphabets. Every TLC state becomes a case "
+      "on the real builders at sizes across the thresholds (inert padding), through text->gob->text, domainset.Config files and the converter "
+      "binary; all 65535 ports are asked of every representation; prefix sets are probed at prefix edges.",
+      "Rule alphabets {a,b,.}, names <=4 characters, <=4 rules (larger sizes via inert padding); regexp and bart semantics are taken from their "
+      "libraries; parse/load refusals that differ from the model are notes.",
+      "TLA+ transcriptions + TLC exhaustive checking; every model state replayed as a case across all real representations",
+      "DESIGN.md 4/C10", "sets")
+
 NA = {}
 
 def main():
